@@ -1,7 +1,7 @@
 (** Extraction of the executable models to OCaml (oracle for the
     correspondence checks).  ExtrOcamlBasic only; N/positive/nat stay the
     extracted inductive types. *)
-From XZ Require Import Base Crc Sha256 Bcj BcjInst CodeWrap C11Lemmas Lzma Lzma2 Xz Formats IndexModel XzNames Outq RcAbs RcDec RcEnc.
+From XZ Require Import Base Crc Sha256 Bcj BcjInst CodeWrap C11Lemmas Lzma Lzma2 Xz Formats IndexModel XzNames Outq RcAbs RcDec RcEnc LzmaEnc LzmaRun.
 Require Extraction.
 Require Import ExtrOcamlBasic.
 Extraction Language OCaml.
@@ -18,4 +18,6 @@ Extraction "xzmodel"
   IndexModel.locate IndexModel.index_encode
   XzNames.compressed_name XzNames.uncompressed_name XzNames.dest_mode XzNames.final_status
   Outq.run Outq.step Outq.outq0
-  RcEnc.encode Lzma.prob_update Lzma.rc_init Lzma.rc_decode_bit Lzma.rc_direct1 Lzma.rc_normalize.
+  RcEnc.encode Lzma.prob_update Lzma.rc_init Lzma.rc_decode_bit Lzma.rc_direct1 Lzma.rc_normalize
+  LzmaRun.enc_run LzmaRun.z_init LzmaEnc.enc_eopm Lzma.symbol Lzma.lz_start Lzma.rc_bit
+  Lzma.P_IS_MATCH Lzma.P_IS_REP Lzma.P_IS_REP0 Lzma.P_IS_REP0_LONG Lzma.P_IS_REP1 Lzma.P_IS_REP2.
